@@ -5,6 +5,7 @@ import (
 	"context"
 	"fmt"
 	"math"
+	"reflect"
 	"sort"
 	"strings"
 
@@ -207,8 +208,8 @@ func mapOps() []seq.Op[*mapPair] {
 		k := k
 		o = append(o, seq.Op[*mapPair]{Name: "Set(" + kname(k) + ")", Step: func(s *mapPair) (string, string) {
 			s.n++
-			s.wide.Set(k, s.n)
-			s.single.Set(k, s.n)
+			s.wide.Set(k, valueOf(s.n))
+			s.single.Set(k, valueOf(s.n))
 			return "", ""
 		}})
 		o = append(o, seq.Op[*mapPair]{Name: "Delete(" + kname(k) + ")", Step: func(s *mapPair) (string, string) {
@@ -220,11 +221,31 @@ func mapOps() []seq.Op[*mapPair] {
 	return o
 }
 
+// valueOf: the stored values cycle through comparable and uncomparable dynamic types (a container must
+// never compare the values it stores)
+func valueOf(n int) interface{} {
+	switch n % 6 {
+	case 0:
+		return n
+	case 1:
+		return fmt.Sprint("s", n)
+	case 2:
+		return []byte{byte(n), 1}
+	case 3:
+		return map[string]int{"n": n}
+	case 4:
+		return struct{ b []int }{[]int{n}}
+	}
+	return nil
+}
+
+func show(v interface{}) string { return fmt.Sprintf("%T:%v", v, v) }
+
 func mapAfter(s *mapPair) string {
 	for _, k := range ckeys {
 		v1, ok1 := s.wide.Get(k)
 		v2, ok2 := s.single.Get(k)
-		if v1 != v2 || ok1 != ok2 || s.wide.Exist(k) != s.single.Exist(k) || s.wide.Exist(k) != ok1 {
+		if show(v1) != show(v2) || ok1 != ok2 || s.wide.Exist(k) != s.single.Exist(k) || s.wide.Exist(k) != ok1 {
 			return fmt.Sprintf("Get/Exist(%s): sharded map answers %v,%v/%v, unsharded %v,%v/%v", kname(k), v1, ok1, s.wide.Exist(k), v2, ok2, s.single.Exist(k))
 		}
 	}
@@ -236,7 +257,7 @@ func mapKey(s *mapPair) string {
 	for _, k := range ckeys {
 		v, ok := s.single.Get(k)
 		if ok {
-			fmt.Fprintf(&b, "%s=%v;", kname(k), v.(int)%2)
+			fmt.Fprintf(&b, "%s=%v;", kname(k), v == nil || reflect.TypeOf(v).Comparable())
 		}
 	}
 	return b.String()
@@ -245,6 +266,10 @@ func mapKey(s *mapPair) string {
 type ival int
 
 func (ival) Size() int { return 1 }
+
+type sval struct{ s []int }
+
+func (sval) Size() int { return 1 }
 
 type lruPair struct {
 	wide   func(op string, k interface{}, v int) string
@@ -332,7 +357,11 @@ func facade(c cache.LRUFacade) func(op string, k interface{}, v int) string {
 	return func(op string, k interface{}, v int) string {
 		switch op {
 		case "Set":
-			c.Set(k, ival(v))
+			if v%3 == 2 {
+				c.Set(k, sval{[]int{v}}) // an uncomparable value now and then
+			} else {
+				c.Set(k, ival(v))
+			}
 			return ""
 		case "Get":
 			x, ok := c.Get(k)
@@ -351,7 +380,11 @@ func tfacade(c tiny.LRU) func(op string, k interface{}, v int) string {
 	return func(op string, k interface{}, v int) string {
 		switch op {
 		case "Set":
-			c.Set(k, v)
+			if v%3 == 2 {
+				c.Set(k, []int{v}) // an uncomparable value now and then
+			} else {
+				c.Set(k, v)
+			}
 			return ""
 		case "Get":
 			x, ok := c.Get(k)
@@ -684,8 +717,8 @@ func smallCapacity(c *seq.Ctx) {
 					}()
 					f := m.new(cp, remap.WithPrime(shards))
 					for i, k := range keys {
-						f("Set", k, i+1)
-						if got, want := f("Get", k, 0), fmt.Sprint(i+1, true); got != want {
+						f("Set", k, 3*i+1) // 1 mod 3: the facades store a plain int for these
+						if got, want := f("Get", k, 0), fmt.Sprint(3*i+1, true); got != want {
 							return fmt.Sprintf("Get(%v) right after Set = %s, want %s", k, got, want)
 						}
 						if got := f("Exist", k, 0); got != "true" {
